@@ -203,6 +203,9 @@ func (in *Interp) builtin(b *ssa.Builtin, args []Value, fr *frame, cc *ssa.CallC
 		for i := 0; i < n; i++ {
 			out[i] = p.Obj.Slots[p.Off+i].(*Term)
 		}
+		if !p.Obj.Frozen {
+			p.Obj.aliases = append(p.Obj.aliases, strAlias{p.Off, out})
+		}
 		return Str{out}
 	case "StringData":
 		s := args[0].(Str)
